@@ -56,6 +56,14 @@ func chunkLimitCases(seed uint64) []xzCase {
 			i++
 		}
 	}
+	// a block of noise and its copy at a distance equal to the dictionary capacity, for
+	// capacities next to the representable sizes (2^k, 3*2^k, each +-1): the block header has
+	// to announce a dictionary that covers the capacity the encoder really uses
+	for _, d := range []int{4097, 6143, 6144, 6145, 8191, 8193, 12287, 12289, 24577, 49153, 65537, 98305, 196609} {
+		out = append(out, xzCase{ID: fmt.Sprintf("lim%d", i), LC: 3, PB: 2, DictCap: d, BufSize: []int{0, 273, 4096}[i%3], Check: []string{"crc32", "none", "crc64"}[i%3], Matcher: i % 2,
+			Family: "xx", N: 2 * d, Part: []string{"one", "random"}[i%2], Seed: seed + 3000 + uint64(i)})
+		i++
+	}
 	return out
 }
 
